@@ -155,9 +155,8 @@ def _last_solver_call(B):
     return None
 
 
-def h_kwargs(B, target="EOF", n=5, p=4):
+def h_kwargs(B, target="EOF", n=5, p=4, seed=12345):
     """documented pass-through options must be accepted and reach the solver"""
-    seed = 12345
     kw = {"n_oversamples": 7}
     B.covers(f"{target} solver_kwargs / random_state forwarding")
     if target in ("EOF", "ComplexEOF", "ExtendedEOF", "OPA", "POP", "SparsePCA"):
@@ -232,6 +231,9 @@ def configs(tier):
         add("h_policy", f"policy|{solver}", solver=solver, options={"max_forks": 60})
     for t in ("EOF", "ComplexEOF", "ExtendedEOF", "POP", "CPCCA", "MCA", "CPCCA+PCA"):
         add("h_kwargs", f"kwargs|{t}", target=t, options={"full_rank": True})
+    # seed 0 is a valid seed (and the classic victim of `if seed:`)
+    for t in ("EOF", "ComplexEOF", "MCA") if tier == "quick" else ("EOF", "ComplexEOF", "ExtendedEOF", "POP", "CPCCA", "MCA", "CPCCA+PCA"):
+        add("h_kwargs", f"kwargs|{t}|random_state=0", target=t, seed=0, options={"full_rank": True})
     add("h_sign", "sign|xarray", version="xarray", options={"sign": "real", "abs": "fork", "extreme": "fork", "ite_merge": False})
     add("h_sign", "sign|numpy", version="numpy", options={"sign": "real", "abs": "fork", "extreme": "fork", "ite_merge": False})
     return out
